@@ -66,8 +66,9 @@ class FifoMonitor(Monitor):
         self.check(D.b_implies(nonempty, D.v_eq(outs["front"], self.q[0], EW)), "front differs from oldest element")
 
 
-def dfifo_design(N, txd, rxd):
-    """delayed Fifo: producer and consumer in two different contexts, each gating its request with the flag it sees"""
+def dfifo_design(N, txd, rxd, coro_consumer=False):
+    """delayed Fifo: producer and consumer in two different contexts, each gating its request with the flag it sees
+    (coro_consumer: the consumer is a coroutine using `await fifo.receive()`)"""
     a = ", ".join(f"{k}={v}" for k, v in (("tx_delay", txd), ("rx_delay", rxd)) if v)
     lines = [HEADER, "class W(cohdl.Entity):", "    clk = Port.input(Bit)", "    reset = Port.input(Bit)",
              f"    data_in = Port.input(Unsigned[{EW}])", "    push = Port.input(Bit)", "    pop = Port.input(Bit)",
@@ -83,6 +84,9 @@ def dfifo_design(N, txd, rxd):
              "            if self.push and not fifo.full():", "                fifo.push(self.data_in)", "                self.pushed ^= True",
              "        @ctx_c", "        def consumer():", "            self.obs_empty ^= fifo.empty()", "            self.obs_front <<= fifo.front()",
              "            if self.pop and not fifo.empty():", "                self.data_out <<= fifo.pop()", "                self.popped ^= True"]
+    if coro_consumer:
+        k = lines.index("        @ctx_c")
+        lines = lines[:k] + ["        @ctx_c", "        async def consumer():", "            await self.pop", "            c14d = await fifo.receive()", "            self.data_out <<= c14d", "            self.popped ^= True"]
     return "\n".join(lines) + "\n"
 
 
@@ -92,8 +96,9 @@ class DFifoMonitor(Monitor):
     progress -- after D clocks without a pop the producer's full flag is exact, after D clocks without a push the
                 consumer's empty flag is exact (D = 2*(tx+rx)+6: two rounds of the set/clear hand-over)"""
 
-    def __init__(self, N, D_):
+    def __init__(self, N, D_, coro_consumer=False):
         super().__init__()
+        self.coro = coro_consumer
         self.cap = N - 1
         self.q = [0] * self.cap
         self.len = 0
@@ -106,6 +111,8 @@ class DFifoMonitor(Monitor):
         LW, CW = 3, 5
         rst = bit(ins["reset"])
         pushed, popped = bit(outs["pushed"]), bit(outs["popped"])
+        if self.coro:
+            return self.step_coro(i, ins, outs, rst, pushed, popped)
         obs_full, obs_empty = bit(outs["obs_full"]), bit(outs["obs_empty"])
         nrst = D.b_not(rst)
         is_full, is_empty = D.v_eq(self.len, self.cap, LW), D.v_eq(self.len, 0, LW)
@@ -130,6 +137,31 @@ class DFifoMonitor(Monitor):
         sat = lambda c: mux(D.v_eq(c, 31, CW), 31, D.v_add(c, 1, CW), CW)
         self.qpush = mux(D.b_or(rst, pushed), 0, sat(self.qpush), CW)
         self.qpop = mux(D.b_or(rst, popped), 0, sat(self.qpop), CW)
+
+
+def _dfifo_step_coro(self, i, ins, outs, rst, pushed, popped):
+    """consumer = coroutine with `await fifo.receive()`: every delivered element is the oldest stored one, nothing is delivered
+    from an empty Fifo, the producer side is judged as before"""
+    LW = 3
+    obs_full = bit(outs["obs_full"])
+    nrst = D.b_not(rst)
+    is_full, is_empty = D.v_eq(self.len, self.cap, LW), D.v_eq(self.len, 0, LW)
+    self.check(D.b_implies(rst, D.b_not(D.b_or(pushed, popped))), "transfer during reset")
+    self.check(D.b_implies(D.b_and(nrst, D.b_not(obs_full)), D.b_not(is_full)), "producer sees 'not full' while N-1 elements are stored")
+    self.check(D.b_eq(pushed, D.b_and(nrst, D.b_and(bit(ins["push"]), D.b_not(obs_full)))), "wrapper: pushed")
+    self.check(D.b_implies(popped, D.b_not(is_empty)), "receive() delivered an element although nothing is stored (duplicate or stale word)")
+    head = self.q[0]
+    q1 = [mux(popped, self.q[k + 1] if k + 1 < self.cap else 0, self.q[k], EW) for k in range(self.cap)]
+    len1 = mux(popped, D.v_sub(self.len, 1, LW), self.len, LW)
+    q2 = [mux(D.b_and(pushed, D.v_eq(len1, k, LW)), ins["data_in"], q1[k], EW) for k in range(self.cap)]
+    len2 = mux(pushed, D.v_add(len1, 1, LW), len1, LW)
+    self.q = [mux(rst, 0, v, EW) for v in q2]
+    self.len = mux(rst, 0, len2, LW)
+    self.last = mux(rst, 0, mux(popped, head, self.last, EW), EW)
+    self.check(D.v_eq(outs["data_out"], self.last, EW), "received value differs from the oldest pushed element (loss, duplicate or reordering)")
+
+
+DFifoMonitor.step_coro = _dfifo_step_coro
 
 
 def stack_design(N, mode):
@@ -208,6 +240,10 @@ def jobs(tier):
         K = Dq + 2 * N + 2
         js.append((f"Fifo|N={N}|tx_delay={t}|rx_delay={r}|two contexts", dfifo_design(N, t, r), {"reset": 1, "data_in": EW, "push": 1, "pop": 1},
                    ["data_out", "pushed", "popped", "obs_full", "obs_empty", "obs_front"], K, lambda N=N, Dq=Dq: DFifoMonitor(N, Dq)))
+    for N, t, r in ((3, 1, 1), (3, 2, 3)) if tier == "quick" else ((3, 1, 1), (3, 2, 3), (4, 1, 0), (4, 0, 1), (5, 2, 2)):
+        K = 2 * (t + r) + 2 * N + 8
+        js.append((f"Fifo|N={N}|tx_delay={t}|rx_delay={r}|coroutine consumer (receive)", dfifo_design(N, t, r, True), {"reset": 1, "data_in": EW, "push": 1, "pop": 1},
+                   ["data_out", "pushed", "popped", "obs_full"], K, lambda N=N: DFifoMonitor(N, 0, True)))
     for N in Ns:
         for mode in ("default", "drop_old") if tier == "quick" else ("default", "no_overflow", "drop_old"):
             K = 3 * N + 4
